@@ -1,4 +1,201 @@
+//! C02 — request bytes parsed faithfully, malformed bytes refused.
+//! Scenario: {"req": <state of the HttpParse machine at its end>}; the bytes are presented as the first read
+//! of a connection to the real `Request::read` (through ohkami::__verif::VRequest and a scripted reader).
+use crate::util::{self, arr, s, Rng, ScriptedReader};
+use ohkami::__verif as v;
 use serde_json::{json, Value};
-pub fn run(_scn: &Value) -> Value { json!({"kind": "unimplemented"}) }
-#[allow(dead_code)]
-pub fn gen(_rng: &mut crate::util::Rng, i: usize) -> Value { json!({"id": i}) }
+
+pub const BUF: usize = 1024;
+
+pub struct Table { pub alt: bool }
+impl Table {
+    pub fn seg(&self, t: &str) -> (&'static str, &'static str) { // (wire, denoted)
+        match (t, self.alt) {
+            ("s1", false) => ("abc", "abc"), ("s1", true) => ("users", "users"),
+            ("s2", false) => ("x.y-z_0", "x.y-z_0"), ("s2", true) => ("v1.2_b-9", "v1.2_b-9"),
+            ("se", false) => ("a%20b", "a b"), ("se", true) => ("%41b%2e", "Ab."),
+            _ => ("zz", "zz"),
+        }
+    }
+    pub fn qk(&self, t: &str) -> &'static str { match (t, self.alt) { ("k1", false) => "q", ("k1", true) => "name", ("k2", false) => "page", _ => "id" } }
+    pub fn qv(&self, t: &str) -> (&'static str, &'static str) {
+        match (t, self.alt) { ("v1", false) => ("1", "1"), ("v1", true) => ("ohkami", "ohkami"), ("ve", false) => ("a%26b%3D", "a&b="), ("ve", true) => ("%e7%8b%bc", "狼"), _ => ("", "") }
+    }
+    pub fn hname(&self, n: &str) -> &'static str {
+        match n { "Host" => "Host", "Accept" => "Accept", "CT" => "Content-Type", "XA" => "X-Request-Id", "XB" => "X-Custom-Flag", "CL" => "Content-Length", _ => "X-Other" }
+    }
+    pub fn cased(&self, name: &str, c: &str) -> String {
+        match c {
+            "lower" => name.to_ascii_lowercase(),
+            "upper" => name.to_ascii_uppercase(),
+            "mixed" => { let low = name.to_ascii_lowercase(); let mut it = low.chars();
+                         let first = it.next().unwrap().to_ascii_uppercase(); let rest: String = it.collect();
+                         let m = format!("{first}{rest}");
+                         if m == name { name.chars().enumerate().map(|(i, ch)| if i % 2 == 0 { ch.to_ascii_lowercase() } else { ch.to_ascii_uppercase() }).collect() } else { m } }
+            _ => name.to_string(),
+        }
+    }
+    pub fn hval(&self, t: &str) -> String {
+        match (t, self.alt) { ("v1", false) => "alpha".into(), ("v1", true) => "example.com".into(), ("v2", false) => "beta2".into(), ("v2", true) => "*/*".into(),
+            ("vl", _) => "l".repeat(200), ("vs", false) => "a b; c=d".into(), ("vs", true) => "text/plain; charset=utf-8".into(), _ => "x".into() }
+    }
+    fn unhval(&self, raw: &str) -> Value {
+        json!(raw.split(", ").map(|p| { for t in ["v1", "v2", "vl", "vs"] { if self.hval(t) == p { return t.to_string() } } format!("?{}", util::clip(p, 12)) }).collect::<Vec<_>>())
+    }
+}
+
+pub struct Built { pub bytes: Vec<u8>, pub body: Vec<u8>, pub head_len: usize }
+
+/// concretises the abstract request (no parsing logic here: pure table look-up and concatenation), then applies the fault
+pub fn build(req: &Value, t: &Table, seed: u64) -> Built {
+    let fault = s(&req["fault"]);
+    let mut method = s(&req["method"]).to_string();
+    let mut target = String::new();
+    for sg in arr(&req["segs"]) { target.push('/'); target.push_str(t.seg(s(sg)).0) }
+    if target.is_empty() { target.push('/') } else if req["trailing"].as_bool().unwrap_or(false) { target.push('/') }
+    if req["hasq"].as_bool().unwrap_or(false) {
+        target.push('?');
+        target.push_str(&arr(&req["query"]).iter().map(|p| format!("{}={}", t.qk(s(&p[0])), t.qv(s(&p[1])).0)).collect::<Vec<_>>().join("&"));
+    }
+    let mut version = "HTTP/1.1".to_string();
+    match fault {
+        "unknown-method" => method = "FOO".into(), "lowercase-method" => method = method.to_ascii_lowercase(),
+        "target-no-slash" => target = target.trim_start_matches('/').to_string() + "x", "target-asterisk" => target = "*".into(),
+        "target-too-long" => target = format!("/{}", "t".repeat(2000)),
+        "nul-in-target" => target.insert(1, '\0'),
+        "version-1.0" => version = "HTTP/1.0".into(), "version-2" => version = "HTTP/2".into(), "version-garbage" => version = "HTXP/1.1".into(),
+        _ => {}
+    }
+    let mut head: Vec<u8> = vec![];
+    head.extend_from_slice(method.as_bytes());
+    if fault != "no-sp-after-method" { head.push(b' ') }
+    head.extend_from_slice(target.as_bytes());
+    if fault == "nonutf8-in-target" { head.extend_from_slice(b"/\xff\xfe") }
+    let target_end = head.len();
+    if fault == "no-version" { head.extend_from_slice(b"\r\n") } else {
+        if fault != "no-sp-after-target" { head.push(b' ') }
+        head.extend_from_slice(version.as_bytes()); head.extend_from_slice(b"\r\n");
+    }
+    let version_end = head.len();
+    let mut first_header_name_mid = 0; let mut first_header_value_mid = 0;
+    for (k, h) in arr(&req["headers"]).iter().enumerate() {
+        let name = t.cased(t.hname(s(&h["n"])), s(&h["c"]));
+        let mut val = t.hval(s(&h["v"])).into_bytes();
+        if k == 0 { match fault { "nul-in-header-value" => val.insert(1, 0), "nonutf8-in-header-value" => val.insert(1, 0xFF), "header-line-too-long" => val = vec![b'h'; 2000], _ => {} } }
+        if k == 0 { first_header_name_mid = head.len() + name.len() / 2 }
+        head.extend_from_slice(name.as_bytes());
+        if k == 0 && fault == "header-no-colon" { head.push(b' ') } else { head.extend_from_slice(b": ") }
+        if k == 0 { first_header_value_mid = head.len() + val.len() / 2 }
+        head.extend_from_slice(&val); head.extend_from_slice(b"\r\n");
+    }
+    // body
+    let size_class = s(&req["body"]["size"]);
+    let mut body: Vec<u8> = vec![];
+    if size_class != "none" {
+        let cl_name = t.cased("Content-Length", s(&req["body"]["clcase"]));
+        // the size depends on the head length, which depends on the digits of the size: fixpoint over a few rounds
+        let mut size = 5usize;
+        for _ in 0..4 {
+            let hl = head.len() + cl_name.len() + 2 + size.to_string().len() + 2 + 2;
+            size = match size_class { "small" => 5, "fill" => BUF.saturating_sub(hl).max(1), "over" => BUF.saturating_sub(hl) + 300, _ => 3000 };
+        }
+        body = (0..size).map(|i| ((i as u64 * 7 + seed) % 251 + 1) as u8).collect();
+        if s(&req["body"]["first"]) == "Z" { body[0] = 0 }
+        if req["body"]["nul"].as_bool().unwrap_or(false) && size >= 3 { body[size / 2] = 0 }
+        let clv = match fault { "cl-letters" => "abc".to_string(), "cl-digits-then-letter" => format!("{size}a"), "cl-negative" => format!("-{size}"),
+                                "cl-30-digits" => "1".repeat(30), "cl-empty" => String::new(), _ => size.to_string() };
+        head.extend_from_slice(cl_name.as_bytes()); head.extend_from_slice(b": "); head.extend_from_slice(clv.as_bytes()); head.extend_from_slice(b"\r\n");
+    }
+    let before_blank = head.len();
+    head.extend_from_slice(b"\r\n");
+    let head_len = head.len();
+    let mut bytes = head.clone();
+    if fault == "bare-lf" { bytes = String::from_utf8_lossy(&bytes).replace("\r\n", "\n").into_bytes() }
+    let head_wire_len = bytes.len();
+    bytes.extend_from_slice(&body);
+    match fault {
+        "trunc-method" => bytes.truncate(2), "trunc-target" => bytes.truncate((method.len() + 1 + target_end) / 2 + 1),
+        "trunc-version" => bytes.truncate(version_end - 3), "trunc-header-name" => bytes.truncate(first_header_name_mid),
+        "trunc-header-value" => bytes.truncate(first_header_value_mid), "trunc-before-blank-line" => bytes.truncate(before_blank),
+        "trunc-body" => bytes.truncate(head_wire_len + body.len() / 2),
+        _ => {}
+    }
+    Built { bytes, body, head_len }
+}
+
+pub fn observe(req: &Value, t: &Table, built: &Built, segs: Vec<Vec<u8>>) -> Value {
+    let mut rd = ScriptedReader::new(segs);
+    let mut vr = v::VRequest::new();
+    let res = util::block_on(async { vr.read(&mut rd).await });
+    match res {
+        Err(e) => { let mut out = vec![]; util::block_on(async { v::send(e, &mut out).await }); let p = util::parse_response(&out, false);
+                    json!({"kind": "error", "status": p.status, "starved": rd.starved > 0}) }
+        Ok(None) => json!({"kind": "closed", "status": 0, "starved": rd.starved > 0}),
+        Ok(Some(())) => {
+            let r = vr.get();
+            let acc = std::panic::catch_unwind(std::panic::AssertUnwindSafe(|| {
+                let path = r.path.str().to_string();
+                let segs: Vec<String> = if path == "/" { vec![] } else { path.trim_start_matches('/').trim_end_matches('/').split('/').map(|x| {
+                    for tk in ["s1", "s2", "se"] { if t.seg(tk).1 == x { return tk.to_string() } } format!("?{}", util::clip(x, 12)) }).collect() };
+                let query: Vec<Value> = r.query.iter().map(|(k, val)| {
+                    let kt = ["k1", "k2"].iter().find(|tk| t.qk(tk) == k).map(|x| x.to_string()).unwrap_or(format!("?{k}"));
+                    let vt = ["v1", "ve", "e"].iter().find(|tk| t.qv(tk).1 == val).map(|x| x.to_string()).unwrap_or(format!("?{val}"));
+                    json!([kt, vt]) }).collect();
+                let mut names: Vec<String> = vec![];
+                for h in arr(&req["headers"]) { let n = s(&h["n"]).to_string(); if !names.contains(&n) { names.push(n) } }
+                let hdr: Vec<Value> = names.iter().map(|n| {
+                    let canon = t.hname(n);
+                    let typed = match n.as_str() { "Host" => r.headers.Host(), "Accept" => r.headers.Accept(), "CT" => r.headers.ContentType(), _ => r.headers.get(canon) };
+                    let get = r.headers.get(canon); let getlower = r.headers.get(&canon.to_ascii_lowercase());
+                    let tv = |x: Option<&str>| x.map(|x| t.unhval(x)).unwrap_or(json!(["absent"]));
+                    json!({"n": n, "typed": tv(typed), "get": tv(get), "getlower": tv(getlower)}) }).collect();
+                let pl = r.payload();
+                let dbg = format!("{:?}", r).len();
+                json!({"method": r.method.as_str(), "segs": segs, "query": query, "hdr": hdr,
+                       "payload": {"present": pl.is_some(), "same": pl.map(|p| p == &built.body[..]).unwrap_or(false), "len": pl.map(|p| p.len() as i64).unwrap_or(0)}, "dbg": dbg as i64})
+            }));
+            match acc {
+                Ok(mut o) => { o["kind"] = json!("accepted"); o["starved"] = json!(rd.starved > 0); o["accpanic"] = json!(""); o["status"] = json!(0); o }
+                Err(_) => json!({"kind": "accepted", "status": 0, "starved": rd.starved > 0, "accpanic": "panic", "method": "", "segs": [], "query": [], "hdr": [], "payload": {"present": false, "same": false, "len": 0}}),
+            }
+        }
+    }
+}
+
+pub fn run(scn: &Value) -> Value {
+    let req = &scn["req"];
+    let seed = scn["seed"].as_u64().unwrap_or_else(|| scn["id"].as_u64().unwrap_or(0));
+    let t = Table { alt: seed % 2 == 1 };
+    let built = build(req, &t, seed);
+    let mut o = observe(req, &t, &built, vec![built.bytes.clone()]);
+    o["nbytes"] = json!(built.bytes.len() as i64);
+    o["hex"] = json!(util::clip(&String::from_utf8_lossy(&built.bytes[..built.bytes.len().min(built.head_len)]).replace('\r', "\\r").replace('\n', "\\n"), 300));
+    o
+}
+
+/// random requests: more headers, every dimension varied at once
+pub fn gen(rng: &mut Rng, i: usize) -> Value {
+    let methods = ["GET", "PUT", "POST", "PATCH", "DELETE", "HEAD", "OPTIONS"];
+    let m = *rng.pick(&methods);
+    let nseg = rng.below(4);
+    let segs: Vec<&str> = (0..nseg).map(|_| *rng.pick(&["s1", "s2", "se"])).collect();
+    let hasq = rng.chance(1, 2);
+    let query: Vec<Value> = if hasq { (0..rng.below(4)).map(|_| json!([*rng.pick(&["k1", "k2"]), *rng.pick(&["v1", "ve", "e"])])).collect() } else { vec![] };
+    let hl = [("Host", "canon", "v1"), ("Host", "lower", "v2"), ("Accept", "mixed", "v1"), ("Accept", "upper", "v2"), ("Accept", "canon", "vl"), ("CT", "canon", "vs"), ("CT", "mixed", "v1"),
+              ("XA", "canon", "v1"), ("XA", "canon", "v2"), ("XA", "lower", "v2"), ("XB", "mixed", "vl"), ("XB", "upper", "vs"), ("XA", "upper", "vs"), ("Host", "mixed", "vs")];
+    let mut headers = vec![]; let mut long = 0;
+    for _ in 0..rng.below(7) { let h = rng.pick(&hl); if h.2 == "vl" { long += 1; if long > 3 { continue } } headers.push(json!({"n": h.0, "c": h.1, "v": h.2})) }
+    let body = if ["POST", "PUT", "PATCH", "DELETE"].contains(&m) && rng.chance(2, 3) {
+        json!({"size": *rng.pick(&["small", "fill", "over", "big"]), "first": if rng.chance(1, 3) { "Z" } else { "N" }, "nul": rng.chance(1, 3), "clcase": *rng.pick(&["canon", "lower", "mixed"])})
+    } else { json!({"size": "none", "first": "N", "nul": false, "clcase": "canon"}) };
+    let faults = ["trunc-method", "trunc-target", "trunc-version", "trunc-header-name", "trunc-header-value", "trunc-before-blank-line", "trunc-body",
+        "version-1.0", "version-2", "version-garbage", "no-sp-after-method", "no-sp-after-target", "no-version", "header-no-colon", "bare-lf",
+        "cl-letters", "cl-digits-then-letter", "cl-negative", "cl-30-digits", "cl-empty", "nul-in-target", "nul-in-header-value", "nonutf8-in-header-value",
+        "nonutf8-in-target", "unknown-method", "lowercase-method", "target-no-slash", "target-asterisk", "target-too-long", "header-line-too-long"];
+    let mut fault = if rng.chance(1, 3) { *rng.pick(&faults) } else { "none" };
+    let needs_body = ["trunc-body", "cl-letters", "cl-digits-then-letter", "cl-negative", "cl-30-digits", "cl-empty"];
+    let needs_hdr = ["trunc-header-name", "trunc-header-value", "header-no-colon", "nul-in-header-value", "nonutf8-in-header-value", "header-line-too-long"];
+    if (needs_body.contains(&fault) && s(&body["size"]) == "none") || (needs_hdr.contains(&fault) && headers.is_empty()) { fault = "none" }
+    json!({"id": i, "seed": rng.next() % 1000, "req": {"phase": "end", "method": m, "segs": segs, "trailing": nseg > 0 && rng.chance(1, 4), "query": query, "hasq": hasq,
+           "headers": headers, "body": body, "fault": fault}})
+}
